@@ -2,7 +2,10 @@
 //! usage: hsverif <engine> --prop Cxx --tier quick|thorough --seed N --out report.json [--replay file]
 mod driver;
 mod report;
+mod e1_codec;
 mod e1_quorum;
+mod e2_quorumwaiter;
+mod e2_store;
 mod e3_cons;
 mod monitor;
 mod sexp;
@@ -55,6 +58,9 @@ fn main() {
     }
     let report = match o.engine.as_str() {
         "quorum" => e1_quorum::run(&o),
+        "codec" => e1_codec::run(&o),
+        "store" => e2_store::run(&o),
+        "quorumwaiter" => e2_quorumwaiter::run(&o),
         "cons" => e3_cons::run(&o),
         x => {
             eprintln!("unknown engine {}", x);
